@@ -39,6 +39,10 @@ func (v enumItemValue) String() string {
 	}
 }
 
+func (v enumItemValue) isNumber() bool {
+	return v.jsonType == jjson.TypeInteger || v.jsonType == jjson.TypeFloat
+}
+
 func NewEnumItem(b jbytes.Bytes, c string) EnumItem {
 	i := EnumItem{src: b, comment: c}
 	b = b.TrimSpaces()
@@ -117,6 +121,11 @@ func (c Enum) Validate(a jbytes.Bytes) {
 	aa := NewEnumItem(a, "")
 	for _, b := range c.items {
 		if aa.enumItemValue == b.enumItemValue {
+			return
+		}
+		// Numbers of the same type are compared by their value: 100, 1e2 and 1000e-1
+		// are the same integer. An integer still differs from a float (2 and 2.0).
+		if aa.isNumber() && aa.jsonType == b.jsonType && sameNumber(jbytes.Bytes(aa.value), jbytes.Bytes(b.value)) {
 			return
 		}
 	}
